@@ -9,7 +9,10 @@ on the real cocls::publisher<int>/subscriber<int> by harness/publisher_replay.cp
 The specification describes the *repaired* behaviour (Fix* = TRUE); the unrepaired variants of the
 defects found in the pinned tree are kept in the specification and must violate the properties
 (self-test of the properties, thorough tier)."""
+import contextlib
 import os
+import time
+from collections import deque
 
 import vlib
 from framework import graph_replay
@@ -45,9 +48,12 @@ def proj(st):
             "nextFree": st["nextFree"], "regs": regs, "subs": subs}
 
 
-def consts(nsubs, mn, mx, modes, styles=ALL_STYLES, pub=4, batch=2, join=None, kick=1, copybusy=False, serial=True):
+def consts(nsubs, mn, mx, modes, styles=ALL_STYLES, pub=4, batch=2, join=None, kick=1, at=None, copybusy=False,
+           serial=True):
+    at = list(range(0, pub + 1)) if at is None else at
     return {"NSubs": nsubs, "MinLen": mn, "MaxLen": mx, "Modes": tla_set(modes), "Styles": styles,
             "MaxPub": pub, "MaxBatch": batch, "MaxJoin": join if join is not None else nsubs + 1, "MaxKick": kick,
+            "AtPos": "{" + ", ".join(str(x) for x in at) + "}",
             "Serial": "TRUE" if serial else "FALSE", "CopyBusy": "TRUE" if copybusy else "FALSE",
             "FixCloseRace": "TRUE", "FixGetValue": "TRUE", "FixBlocking": "TRUE", "FixCopyParked": "TRUE"}
 
@@ -55,6 +61,125 @@ def consts(nsubs, mn, mx, modes, styles=ALL_STYLES, pub=4, batch=2, join=None, k
 def label(c):
     return "n%s_min%s_max%s_%s" % (c["NSubs"], c["MinLen"], "inf" if c["MaxLen"] == U else c["MaxLen"],
                                    "".join(m[0] for m in c["Modes"].strip("{}").replace('"', "").split(", ")))
+
+
+def fast_cover_paths(g, rng, max_paths=None, full=True, max_len=400, want_terminal=True):
+    """Edge cover by root-to-terminal paths in O(total path length): shortest prefix from an initial
+    state to a node that still has an uncovered out-edge, then a greedy run over uncovered edges
+    (bounded local search when stuck), then the shortest way to a terminal state."""
+    out = {n: [(l, d) for (l, d) in es if d != n] for n, es in g.edges.items()}
+    total = sum(len(v) for v in out.values())
+    parent, depth, order = {}, {}, []
+    dq = deque()
+    for i in g.init:
+        parent[i] = None
+        depth[i] = 0
+        dq.append(i)
+    while dq:
+        n = dq.popleft()
+        order.append(n)
+        for idx, (l, d) in enumerate(out[n]):
+            if d not in parent:
+                parent[d] = (n, idx)
+                depth[d] = depth[n] + 1
+                dq.append(d)
+    rev = {}
+    for n, es in out.items():
+        for idx, (l, d) in enumerate(es):
+            rev.setdefault(d, []).append((n, idx))
+    term_next = {}
+    seen = set()
+    for n in out:
+        if not out[n]:
+            seen.add(n)
+            dq.append(n)
+    while dq:
+        n = dq.popleft()
+        for (p, idx) in rev.get(n, []):
+            if p not in seen:
+                seen.add(p)
+                term_next[p] = idx
+                dq.append(p)
+    unc = {n: set(range(len(out[n]))) for n in order}
+    ncov = [0]
+    paths = []
+
+    def local_search(src, limit):
+        prev = {src: None}
+        q2 = deque([src])
+        while q2 and len(prev) < limit:
+            n = q2.popleft()
+            if unc[n]:
+                path = []
+                while prev[n] is not None:
+                    p, idx = prev[n]
+                    path.append((p, idx))
+                    n = p
+                path.reverse()
+                return path
+            for idx, (l, d) in enumerate(out[n]):
+                if d not in prev:
+                    prev[d] = (n, idx)
+                    q2.append(d)
+        return None
+
+    def build(u):
+        pre = []
+        n = u
+        while parent[n] is not None:
+            p, idx = parent[n]
+            pre.append((p, idx))
+            n = p
+        init = n
+        pre.reverse()
+        steps = []
+        cur = [init]
+
+        def take(n, idx):
+            if idx in unc[n]:
+                unc[n].discard(idx)
+                ncov[0] += 1
+            steps.append(out[n][idx])
+            cur[0] = out[n][idx][1]
+        for (n, idx) in pre:
+            take(n, idx)
+        while len(steps) < max_len:
+            c = cur[0]
+            if unc[c]:
+                take(c, rng.choice(sorted(unc[c])))
+                continue
+            f = local_search(c, 48)
+            if not f:
+                break
+            for (n, idx) in f:
+                take(n, idx)
+        if want_terminal:
+            while out[cur[0]] and cur[0] in term_next and len(steps) < max_len + 200:
+                take(cur[0], term_next[cur[0]])
+        paths.append((init, steps))
+
+    targets = list(order)
+    if max_paths is not None:
+        rng.shuffle(targets)
+    for u in targets:
+        while unc[u]:
+            if max_paths is not None and len(paths) >= max_paths:
+                return paths, ncov[0], total
+            build(u)
+    return paths, ncov[0], total
+
+
+@contextlib.contextmanager
+def fast_cover():
+    """vlib.cover_paths searches the nearest uncovered edge by a BFS per step, which is quadratic on the
+    wide and shallow Publisher graphs (13 minutes for 4*10^4 edges); graph_replay looks the function up
+    in the vlib module at call time, so it is swapped for the duration of our calls only."""
+    old = vlib.cover_paths
+    vlib.cover_paths = fast_cover_paths
+    try:
+        yield
+    finally:
+        vlib.cover_paths = old
 
 
 MUST_TAKE = ["SubscribeRecent", "SubscribeAt", "Leave", "Ready", "Subscribe", "Fetch", "Poll", "NextWhole",
@@ -65,9 +190,10 @@ def replay_config(ctx, rp, c, tag, must=MUST_TAKE, max_paths=None, extra_random=
     def hdr(k, st0, c=c):
         return {"min": c["MinLen"], "max": c["MaxLen"], "wake": "handle" if k % 2 else "fn",
                 "single": ("rvalue", "lvalue", "range")[k % 3]}
-    return graph_replay(ctx, "Publisher", "Publisher", "Publisher_seq.cfg", tag, rp, proj, header_fn=hdr,
-                        merge_re=r"(Wake|WFetch)$", must_take=must, constants=c, max_paths=max_paths,
-                        extra_random=extra_random, key_fn=key_fn, tlc_kw={"workers": 4})
+    with fast_cover():
+        return graph_replay(ctx, "Publisher", "Publisher", "Publisher_seq.cfg", tag, rp, proj, header_fn=hdr,
+                            merge_re=r"(Wake|WFetch)$", must_take=must, constants=c, max_paths=max_paths,
+                            extra_random=extra_random, key_fn=key_fn, tlc_kw={"workers": 4})
 
 
 def expect_violation(ctx, c, tag, what):
@@ -85,58 +211,71 @@ def expect_violation(ctx, c, tag, what):
         {"variant": what, "violated": res.violated_name, "trace_len": len(res.trace), "states": res.distinct})
 
 
+def must_for(styles, kick, at, copy=True):
+    must = ["SubscribeRecent", "Leave", "PushCS", "Close", "Wake"]
+    if at:
+        must.append("SubscribeAt")
+    if copy:
+        must.append("SubscribeCopy")
+    if "split" in styles:
+        must += ["Ready", "Subscribe", "Fetch"]
+    if "poll" in styles:
+        must.append("Poll")
+    if "coro" in styles or "block" in styles:
+        must += ["NextWhole", "WFetch"]
+    if kick:
+        must.append("KickCS")
+    return must
+
+
 def run(ctx):
     rp = vlib.compile_harness(vlib.VERIF + "/harness/publisher_replay.cpp", "publisher_replay", sanitize=not ctx.quick)
+    t0 = time.time()
     if ctx.quick:
-        # one subscriber: every style, deep stream; (min,max,mode) sampled over the three modes
-        solo = [(1, U, ["all"]), (1, 2, ["all"]), (2, 3, ["behind"]), (1, 1, ["recent"]), (2, U, ["recent"]), (1, 2, ["behind"])]
-        for (mn, mx, modes) in solo:
-            c = consts(1, mn, mx, modes, pub=4, batch=3, join=2)
-            replay_config(ctx, rp, c, "solo_" + label(c), extra_random=100)
-        # two subscribers: slowest-subscriber window, wake order, copy, free list
-        duo = [(1, 2, ["all"], '{"split"}', 1), (1, U, ["all", "recent"], '{"coro", "poll"}', 0),
-               (2, 2, ["behind"], '{"split", "block"}', 0)]
-        for (mn, mx, modes, styles, kick) in duo:
-            c = consts(2, mn, mx, modes, styles=styles, pub=3, batch=2, join=2, kick=kick)
-            must = [a for a in MUST_TAKE if a not in ("SubscribeAt",)] + ["SubscribeCopy"]
-            if "split" not in styles:
-                must = [a for a in must if a not in ("Ready", "Subscribe", "Fetch")]
-            if "poll" not in styles:
-                must = [a for a in must if a != "Poll"]
-            if "coro" not in styles and "block" not in styles:
-                must = [a for a in must if a not in ("NextWhole", "WFetch")]
-            if kick == 0:
-                must = [a for a in must if a != "KickCS"]
-            replay_config(ctx, rp, c, "duo_" + label(c), must=must, max_paths=4000)
+        # one subscriber: every style; (min,max,mode) sampled over the three modes, incl. unlimited
+        solo = [(1, U, "all", 4, 3), (1, 2, "all", 4, 2), (2, 3, "behind", 4, 3), (1, 1, "recent", 4, 2),
+                (2, U, "recent", 4, 2), (1, 2, "behind", 4, 2)]
+        duo = [(1, 2, ["all"], '{"split"}', 0, 3, [0]), (1, 2, ["all"], '{"split"}', 1, 2, [0]),
+               (1, U, ["all", "recent"], '{"coro", "poll"}', 0, 2, [0]), (2, 2, ["behind"], '{"split", "block"}', 0, 2, [])]
+        cap = 2500
     else:
+        solo = []
         for mode in ("all", "behind", "recent"):
             for mn in (1, 2, 3, 4, 5):
                 for mx in (1, 2, 3, 4, 5, U):
-                    if mx < mn:
-                        continue
-                    c = consts(1, mn, mx, [mode], pub=5, batch=3, join=2)
-                    replay_config(ctx, rp, c, "solo_" + label(c), extra_random=300)
+                    if mx >= mn:
+                        solo.append((mn, mx, mode, 5 if mx >= 3 else 4, 3))
+        duo = []
         for (mn, mx) in ((1, 1), (1, 2), (2, 3), (1, U), (3, U)):
             for modes in (["all"], ["behind"], ["recent"], ["all", "recent"]):
-                for styles, kick in (('{"split"}', 1), ('{"coro", "poll", "block"}', 0)):
-                    c = consts(2, mn, mx, modes, styles=styles, pub=3, batch=2, join=3 if len(modes) == 1 else 2, kick=kick)
-                    must = ["SubscribeRecent", "SubscribeCopy", "Leave", "PushCS", "Close", "Wake"]
-                    replay_config(ctx, rp, c, "duo_" + label(c) + ("_s" if kick else "_w"), must=must)
+                duo.append((mn, mx, modes, '{"split"}', 1, 3 if len(modes) == 1 else 2, [0]))
+                duo.append((mn, mx, modes, '{"coro", "poll", "block"}', 0, 3 if len(modes) == 1 else 2, [0]))
+        cap = None
+    for (mn, mx, mode, pub, batch) in solo:
+        c = consts(1, mn, mx, [mode], pub=pub, batch=batch, join=2)
+        replay_config(ctx, rp, c, "solo_" + label(c), extra_random=50 if ctx.quick else 300)
+    vlib.log("  C16 solo configurations done: %.0fs" % (time.time() - t0))
+    # two subscribers: slowest-subscriber window, wake order, copy, free list
+    for k, (mn, mx, modes, styles, kick, pub, at) in enumerate(duo):
+        c = consts(2, mn, mx, modes, styles=styles, pub=pub, batch=2, join=2, kick=kick, at=at)
+        replay_config(ctx, rp, c, "duo%d_" % k + label(c), must=must_for(styles, kick, at), max_paths=cap)
+    vlib.log("  C16 duo configurations done: %.0fs" % (time.time() - t0))
     # three subscribers: registration array / free list / wake order
-    c = consts(3, 1, 2, ["all"], styles='{"coro"}', pub=2, batch=2, join=4 if ctx.quick else 5, kick=0)
-    replay_config(ctx, rp, c, "trio", must=["SubscribeRecent", "SubscribeCopy", "Leave", "NextWhole", "Wake", "WFetch", "PushCS", "Close"],
-                  max_paths=3000 if ctx.quick else None)
+    c = consts(3, 1, 2, ["all"], styles='{"coro"}', pub=1 if ctx.quick else 2, batch=2, join=4, kick=0, at=[])
+    replay_config(ctx, rp, c, "trio", must=must_for('{"coro"}', 0, []), max_paths=cap)
     # a subscriber copied while it is parked (separate key: own defect of the pinned tree)
-    c = consts(2, 1, U, ["all"], styles='{"split", "coro"}', pub=2, batch=1, join=2, kick=0, copybusy=True)
-    replay_config(ctx, rp, c, "copybusy", must=["SubscribeCopy", "Wake"],
+    c = consts(2, 1, U, ["all"], styles='{"split", "coro"}', pub=2, batch=1, join=2, kick=0, at=[], copybusy=True)
+    replay_config(ctx, rp, c, "copybusy", must=["SubscribeCopy", "Wake"], max_paths=cap,
                   key_fn=lambda sid, line, txt: "publisher_copy_of_parked_subscriber")
     # interleavings of subscriber critical sections with the publisher's wake-up loop (design level)
-    c = consts(2, 1, 2, ["all", "recent"], styles='{"split"}', pub=3, batch=2, join=2, kick=1, serial=False)
+    c = consts(2, 1, 2, ["all"] if ctx.quick else ["all", "recent"], styles='{"split"}', pub=2 if ctx.quick else 3, batch=2, join=2,
+               kick=1, at=[0], serial=False)
     cfg = os.path.join(vlib.BUILD, "C16_conc.cfg")
     vlib.write_cfg(cfg, open(os.path.join(vlib.VERIF, "spec/Publisher/Publisher_seq.cfg")).read(), c)
     res = ctx.tlc("Publisher", "Publisher", cfg, "conc", workers=4)
     if res.violation:
         ctx.tlc_violation(res, "Publisher:conc")
+    vlib.log("  C16 trio/copy/conc done: %.0fs" % (time.time() - t0))
     if not ctx.quick:
         v = dict(consts(1, 1, U, ["all"], pub=3, batch=2, join=1))
         expect_violation(ctx, dict(v, FixCloseRace="FALSE"), "mut_closerace", "advance_suspend_lk returns early on _closed")
@@ -146,7 +285,7 @@ def run(ctx):
                          "get_value_lk (skip_to_recent) does not record the delivered position")
         expect_violation(ctx, dict(consts(1, 1, 2, ["behind"], pub=4, batch=3, join=1), FixGetValue="FALSE"), "mut_getvalue_behind",
                          "get_value_lk (skip_if_behind) does not record the delivered position")
-        expect_violation(ctx, dict(consts(2, 1, U, ["all"], styles='{"split"}', pub=2, batch=1, join=2, kick=0, copybusy=True),
+        expect_violation(ctx, dict(consts(2, 1, U, ["all"], styles='{"split"}', pub=2, batch=1, join=2, kick=0, at=[], copybusy=True),
                                    FixCopyParked="FALSE"), "mut_copyparked", "copy of a parked subscriber takes the pre-incremented position")
     ctx.assume("threads are modelled at critical-section grain: the two critical sections of next() (advance_lk, "
                "advance_suspend_lk), the wake-up and get_value_lk are separately scheduled steps replayed single-threaded "
